@@ -3,7 +3,7 @@
 copies /tmp/mut/<Cxx>/out/{change<k>.diff,demo<k>.py,meta<k>.json} (+ support dirs) into seeded/<Cxx>-<k>/"""
 import json, os, shutil, sys
 P, K, det, note = sys.argv[1], sys.argv[2], sys.argv[3], sys.argv[4]
-src = f"/tmp/mut/{P}/out"
+src = f"/tmp/mut/{P}/" + os.environ.get("OUTDIR", "out")
 dst = os.path.join(os.path.dirname(os.path.dirname(os.path.abspath(__file__))), "seeded", f"{P}-{K}")
 os.makedirs(dst, exist_ok=True)
 shutil.copy(f"{src}/change{K}.diff", f"{dst}/patch.diff")
